@@ -24,6 +24,7 @@ func verifC12(kind int, maxN int, aspect int) {
 		heapLimit, sysLimit = verifUint64("heapInUseSoftLimit"), verifUint64("sysMemSoftLimit")
 		heapRead, sysRead = verifUint64("heapInuseReading"), verifUint64("sysReading")
 		needMode = verifChoice("evictionNeeded", 3) // 0: nil, 1: false, 2: true
+		fracSet, frac = true, 0.5                   // a cycle that is triggered evicts visibly
 	case 1: // amount: entry count, fraction, count limit
 		n = verifChoice("entries", maxN+1)
 		limit = uint64(verifChoice("countSoftLimit", n+2))
